@@ -301,7 +301,7 @@ func (w *SysWorld) logf(format string, a ...any) { w.Res.logf(format, a...) }
 
 // NewRequest builds an inbound HTTP request as the listener would hand it to
 // the handler (RequestURI parsed by net/http, Host and RemoteAddr set).
-func NewRequest(method, rawTarget, host, remote string, headers []KV, body []byte) (*http.Request, error) {
+func NewRequest(method, rawTarget, host, remote string, headers []KV, body []byte, chunked ...bool) (*http.Request, error) {
 	if remote == "" {
 		remote = "198.51.100.7:40000"
 	}
@@ -313,8 +313,24 @@ func NewRequest(method, rawTarget, host, remote string, headers []KV, body []byt
 	for _, kv := range headers {
 		fmt.Fprintf(&buf, "%s: %s\r\n", kv.Name, kv.Value)
 	}
-	fmt.Fprintf(&buf, "Content-Length: %d\r\n\r\n", len(body))
-	buf.Write(body)
+	if len(chunked) > 0 && chunked[0] {
+		// a body of undeclared length (chunked upload): the server learns its
+		// size only by reading it
+		fmt.Fprintf(&buf, "Transfer-Encoding: chunked\r\n\r\n")
+		for off := 0; off < len(body); off += 7 {
+			end := off + 7
+			if end > len(body) {
+				end = len(body)
+			}
+			fmt.Fprintf(&buf, "%x\r\n", end-off)
+			buf.Write(body[off:end])
+			buf.WriteString("\r\n")
+		}
+		buf.WriteString("0\r\n\r\n")
+	} else {
+		fmt.Fprintf(&buf, "Content-Length: %d\r\n\r\n", len(body))
+		buf.Write(body)
+	}
 	req, err := http.ReadRequest(bufioReader(&buf))
 	if err != nil {
 		return nil, err
